@@ -284,6 +284,7 @@ func check(prop, tier string, writeLock bool, filter string) int {
 	smtDir := filepath.Join(scratch, "smt")
 	if tier == "debug" {
 		smtDir = filepath.Join(verifDir, "tmp-smt")
+		_ = os.RemoveAll(smtDir)
 		_ = os.MkdirAll(smtDir, 0o755)
 	}
 	dischargeAll(obls, smtDir, timeout, seed, 8, tier == "thorough")
